@@ -214,6 +214,14 @@ def bufs_calls(F):
                 out.append((fn, an, cs))
             elif cs.args[0].op == "refval" and _is_bufs_val(cs.args[0].args[0]):
                 out.append((fn, an, cs))
+        # the entry API: `match bufs.entry(k) { Occupied(_) => .., Vacant(slot) => .. slot.insert(v) }` - the insert goes through the slot
+        entries = {cs.result: cs for f_, a_, cs in out if f_ is fn and cs.declared_norm.endswith("HashMap::entry")}
+        for cs in an.calls():
+            if cs.declared_norm.endswith("VacantEntry::insert") and cs.args:
+                src = [e for r, e in entries.items() if cs.args[0].mentions(r)]
+                if len(src) == 1:
+                    cs.entry_of = src[0]
+                    out.append((fn, an, cs))
     return out
 
 
@@ -232,6 +240,7 @@ def rule_cache_protocol(F, rep, rule="cache-protocol", keys="exact"):
         name = cs.declared_norm.split("::")[-1]
         writers.setdefault(name, []).append((fn, an, cs))
     allowed = {"contains_key": "elf_stream::CachingReader::load_bytes", "insert": "elf_stream::CachingReader::load_bytes",
+               "entry": "elf_stream::CachingReader::load_bytes",      # look-up + slot reservation in one call (the slot's insert is an `insert`)
                "get": "elf_stream::CachingReader::get_bytes", "clear": "elf_stream::CachingReader::clear_cache",
                "default": "elf_stream::CachingReader::new", "new": "elf_stream::CachingReader::new"}
     READERS = ("get", "contains_key")      # look-ups do not change the cache: either of the two functions may use either
@@ -263,6 +272,8 @@ def rule_cache_protocol(F, rep, rule="cache-protocol", keys="exact"):
             elif k.op == "refval":
                 k = k.args[0]
         elif name == "insert":
+            k = cs.entry_of.args[1] if getattr(cs, "entry_of", None) is not None else cs.args[1]
+        elif name == "entry":
             k = cs.args[1]
         else:
             continue
@@ -427,7 +438,7 @@ def rule_io_protocol(F, rep, rule="io-protocol"):
                 shares = any(x.op == "call" and x.args[0] == "vec::from_elem" and v.mentions(x) for x in buf.subterms())
                 rep.require(shares, rule, "fetch:value", gw, "the helper returns the buffer that was read into", "%s returns %s, not the buffer filled by read_exact" % (an.fn["qual"], pp(v)[:160]))
     # ordering: insert dominated by success of the fetch; inserted value is that buffer
-    ins = [c for c in lan.calls() if c.declared_norm.endswith("HashMap::insert")]
+    ins = [c for c in lan.calls() if c.declared_norm.endswith("HashMap::insert") or c.declared_norm.endswith("VacantEntry::insert")]
     rep.require(len(ins) == 1, rule, "load_bytes:one-insert", w, "one insert", "%d inserts into the cache" % len(ins))
     for c in ins:
         if gcall is None:
@@ -436,7 +447,7 @@ def rule_io_protocol(F, rep, rule="io-protocol"):
             good = lan.dominates(gcall.block, c.block) and ("var", gcall.result, "Ok") in c.facts
         rep.require(good, rule, "load_bytes:insert-after-read", c.where(), "cache insert is dominated by the success edges of seek and read_exact",
                     "a buffer is inserted into the cache before/without the read having succeeded (a failed read leaves fabricated data cached)")
-        v = c.args[2]
+        v = c.args[1] if c.declared_norm.endswith("VacantEntry::insert") else c.args[2]
         if gcall is None:
             shares = any(x.op == "call" and x.args[0] == "vec::from_elem" for x in v.subterms()) and any(
                 x.op == "call" and x.args[0] == "vec::from_elem" and v.mentions(x) for x in buf.subterms())
@@ -445,7 +456,8 @@ def rule_io_protocol(F, rep, rule="io-protocol"):
         rep.require(shares, rule, "load_bytes:insert-value", c.where(), "the inserted value is the buffer that was read into",
                     "the cached value %s is not the buffer filled by read_exact" % pp(v)[:160])
     # Ok outcomes: either the key was already cached, or the insert happened
-    ck = [c for c in lan.calls() if c.declared_norm.endswith("HashMap::contains_key") or c.declared_norm.endswith("HashMap::get")]
+    ck = [c for c in lan.calls() if c.declared_norm.endswith("HashMap::contains_key") or c.declared_norm.endswith("HashMap::get")
+          or c.declared_norm.endswith("HashMap::entry")]
     ps = lan.paths()
     for t, st in ([(t_, st_) for t_, st_, _ in ps] if ps is not None else (lan.ret_leaves() or [])):
         if t.op == "agg" and t.args[3] == "Ok":
@@ -453,6 +465,13 @@ def rule_io_protocol(F, rep, rule="io-protocol"):
             for k_ in ck:
                 if k_.declared_norm.endswith("contains_key"):
                     cached = cached or ("true", k_.result) in st.facts or lan.truth(st.facts, k_.result) is True
+                elif k_.declared_norm.endswith("entry"):
+                    # Entry has two variants; the index of Vacant is read off the downcast through which the slot is taken
+                    vac = {x.args[1][1] for c_ in ins for x in c_.args[0].subterms()
+                           if x.op == "proj" and x.args[1][0] == "v" and x.args[1][2] == "Vacant" and x.args[0] is k_.result}
+                    d_ = T.discr(k_.result)
+                    cached = cached or ("var", k_.result, "Occupied") in st.facts or (
+                        len(vac) == 1 and any(f[0] == "ne" and f[1] is d_ and f[2] in vac for f in st.facts))
                 else:
                     cached = cached or lan.variant_known(k_.result, "Some", st.facts) is True
             if gcall is None:
